@@ -13,7 +13,7 @@ use std::panic::{catch_unwind, AssertUnwindSafe};
 fn seq(v: Vec<usize>) -> String { line("seq", &v.iter().map(|x| *x as i64).collect::<Vec<_>>()) }
 
 /// queries that need only IntoNeighbors + Visitable
-fn query_nb<G>(g: G, q: &GOp) -> Option<String>
+pub fn query_nb<G>(g: G, q: &GOp) -> Option<String>
 where G: GraphRef + IntoNeighbors + Visitable + NodeIndexable, G::NodeId: std::fmt::Debug {
     let a = &q.1;
     let n = |i: i64| g.from_index(i as usize);
@@ -91,7 +91,7 @@ fn comps<G: NodeIndexable>(g: G, sccs: &[Vec<G::NodeId>]) -> Vec<String> {
 }
 
 /// queries over node_identifiers + neighbors (+ NodeIndexable): is_cyclic_directed, tarjan
-fn query_ids<G>(g: G, q: &GOp) -> Option<Vec<String>>
+pub fn query_ids<G>(g: G, q: &GOp) -> Option<Vec<String>>
 where G: GraphRef + IntoNeighbors + IntoNodeIdentifiers + Visitable + NodeIndexable {
     Some(match q.0.as_str() {
         "is_cyclic_directed" => vec![line("bool", &[algo::is_cyclic_directed(g) as i64])],
@@ -112,7 +112,7 @@ where G: GraphRef + IntoNeighbors + IntoNodeIdentifiers + Visitable + NodeIndexa
 }
 
 /// queries over edge_references: is_cyclic_undirected
-fn query_er<G>(g: G, q: &GOp) -> Option<Vec<String>>
+pub fn query_er<G>(g: G, q: &GOp) -> Option<Vec<String>>
 where G: GraphRef + IntoEdgeReferences + NodeIndexable {
     Some(match q.0.as_str() {
         "is_cyclic_undirected" => vec![line("bool", &[algo::is_cyclic_undirected(g) as i64])],
@@ -120,7 +120,7 @@ where G: GraphRef + IntoEdgeReferences + NodeIndexable {
     })
 }
 
-fn query_compact<G>(g: G, q: &GOp) -> Option<Vec<String>>
+pub fn query_compact<G>(g: G, q: &GOp) -> Option<Vec<String>>
 where G: GraphRef + IntoEdgeReferences + NodeCompactIndexable {
     Some(match q.0.as_str() {
         "connected_components" => vec![line("nat", &[algo::connected_components(g) as i64])],
@@ -128,7 +128,7 @@ where G: GraphRef + IntoEdgeReferences + NodeCompactIndexable {
     })
 }
 
-fn query_dir2<G>(g: G, q: &GOp) -> Option<Vec<String>>
+pub fn query_dir2<G>(g: G, q: &GOp) -> Option<Vec<String>>
 where G: GraphRef + IntoNeighborsDirected + IntoNodeIdentifiers + Visitable + NodeIndexable {
     let topo = |r: Result<Vec<G::NodeId>, algo::Cycle<G::NodeId>>| match r {
         Ok(l) => line("seq", &l.iter().map(|x| g.to_index(*x) as i64).collect::<Vec<_>>()),
@@ -142,7 +142,7 @@ where G: GraphRef + IntoNeighborsDirected + IntoNodeIdentifiers + Visitable + No
     })
 }
 
-fn query_dir<G>(g: G, q: &GOp) -> Option<String>
+pub fn query_dir<G>(g: G, q: &GOp) -> Option<String>
 where G: GraphRef + IntoNeighborsDirected + IntoNodeIdentifiers + Visitable + NodeIndexable {
     let a = &q.1;
     Some(match q.0.as_str() {
